@@ -287,8 +287,11 @@ def object_copy_problems(interface, prefix):
     bench.run_history(S, prefix)
     m = S.model
     n = 0
-    for r in list(m.reactions):
-        for kind in ("copy", "add", "sub", "mul"):
+    # reactions of the model, and reactions that the history removed from it (they still hold the model's metabolites
+    # and genes): copying or combining them must leave the model alone as well
+    detached = [o for o in S.removed.values() if getattr(o, "_model", None) is None and o.id not in m.reactions]
+    for r in list(m.reactions) + detached:
+        for kind in ("copy", "add", "sub", "mul") + (("radd",) if r in detached else ()):
             before = full_view(S)
             g_before = mutable_graph(m)
             try:
@@ -296,7 +299,7 @@ def object_copy_problems(interface, prefix):
                     warnings.simplefilter("ignore")
                     other = m.reactions[0] if m.reactions[0] is not r else m.reactions[-1]
                     new = {"copy": lambda: r.copy(), "add": lambda: r + other, "sub": lambda: r - other,
-                           "mul": lambda: r * 2}[kind]()
+                           "mul": lambda: r * 2, "radd": lambda: other + r}[kind]()
             except Exception as exc:
                 P.append((f"Reaction {kind} raised " + type(exc).__name__, repr(exc)))
                 continue
@@ -305,6 +308,8 @@ def object_copy_problems(interface, prefix):
             d = observe.diff(before[0], after[0])
             if d or before[1] != after[1]:
                 P.append((f"Reaction {kind} changed its operands/model at " + observe.first_path(d), "\n".join(d)))
+            if r in detached:
+                kind = kind + " (reaction removed from the model)"
             if new.model is not None:
                 P.append((f"result of Reaction {kind} belongs to a model", r.id))
             gn = mutable_graph(new)
